@@ -37,10 +37,17 @@ def floor (x : UInt32) : UInt32 :=
 def remEuclid (x m : UInt32) : UInt32 :=
   add (rem x m) (mul (boolToF32 (signBit x)) m)
 
-/-- micromath-2.1.0 src/float/floor.rs: `let mut res = (self.0 as i32) as f32; if self.0 < res { res -= 1.0 }`. -/
-def mmFloor (x : UInt32) : UInt32 :=
+/-- micromath-2.1.0 src/float/floor.rs: `let mut res = (self.0 as i32) as f32; if self.0 < res { res -= 1.0 }`
+(saturates beyond the `i32` range, maps NaN to 0.0). -/
+def mmFloorRaw (x : UInt32) : UInt32 :=
   let res := intToF32 (toI32Sat x)
   if lt x res then sub res one else res
+
+/-- float.rs:43-51 `mm::floor` (after fix 7bf834c):
+`if !(mm::abs(x) < 8_388_608.0) { return x } mm::floor(x)` – micromath's `abs` is the same bit mask as
+`fallback::abs`. -/
+def mmFloor (x : UInt32) : UInt32 :=
+  if !(lt (abs x) two23) then x else mmFloorRaw x
 
 /-- micromath-2.1.0 src/float/rem_euclid.rs: `let r = self % rhs; if r >= 0 { r } else { r + rhs.abs() }`. -/
 def mmRemEuclid (x m : UInt32) : UInt32 :=
